@@ -222,6 +222,9 @@ var c16Reqs = []c16Req{
 	// two applications in two directories, each with its own module of the SAME name
 	{Name: "o-dir1-module", Handler: "http", Source: "导入“工具”\n输出（值）", Dir: "甲站", Files: map[string]string{"工具.zn": "如何值？\n    输出100"}},
 	{Name: "p-dir2-module", Handler: "http", Source: "导入“工具”\n输出（值） + （另值）", Dir: "乙站", Files: map[string]string{"工具.zn": "如何值？\n    输出250\n如何另值？\n    输出1"}},
+	// a path that is not absolute means the same file to every execution, whatever else is being served
+	{Name: "s-dir1-relative-read", Handler: "http", Source: "导入《@文件》\n令甲 = 1\n令乙 = 2\n输出（读取文件：“相对数据.txt”）", Dir: "甲站", Files: map[string]string{"相对数据.txt": "甲站数据"}},
+	{Name: "t-dir2-relative-read", Handler: "http", Source: "导入《@文件》\n令甲 = 1\n输出（读取文件：“相对数据.txt”）", Dir: "乙站", Files: map[string]string{"相对数据.txt": "乙站数据"}},
 	c16R("m-req-read", "http", "输入当前请求\n输出【当前请求之查询参数之长度，当前请求之头部之长度，当前请求之方法，当前请求之路径】", ""),
 }
 
